@@ -38,6 +38,7 @@ def run(ctx):
     _r7(ctx)
     _r8(ctx)
     _r9_options_kept_as_read_and_all_written(ctx)
+    _r10_fixed_text_fields_keep_their_octets(ctx)
 
 
 def _r8(ctx):
@@ -590,3 +591,43 @@ def _r9_options_kept_as_read_and_all_written(ctx):
                       "code and value handed to serialise_option must be the key and the value of the entry being visited (are %s, %s)" % (
                           show(args[0])[:70], show(args[1])[:70] if len(args) > 1 else None))
     ctx.floor("R9", "option writes in the encoder", m, 1)
+
+
+def _r10_fixed_text_fields_keep_their_octets(ctx):
+    """sname / file are decoded by cutting the field at its first NUL — and a field with no NUL at all (completely full) is the
+    whole field.  Whatever the helper returns is its argument, possibly shortened: no path yields something made up (an empty
+    default on the "no terminator" path loses a full-length name)."""
+    P = ctx.P
+    fns = [b for fid, b in P.bodies.items() if fid.endswith("dhcppkt::null_terminated")]
+    for b in fns:
+        ctx.saw(b)
+        T = terms(P, b)
+        rets = [norm(T.rvalue(st["rv"], bb, idx)) for bb, idx, st in b.stmts() if st["p"] == (0,) and "rv" in st]
+        rets += [norm(("call", callee_name(tm), tuple(T.call_args(bb)), bb)) for bb, tm in b.calls() if tuple(tm["dest"]) == (0,)]
+
+        def from_arg(t, depth=0):
+            t = norm(t)
+            if depth > 10:
+                return False
+            if t == ("param", 1):
+                return True
+            if t[0] == "phi":
+                return all(from_arg(x, depth + 1) for x in t[1])
+            if t[0] in ("ref", "deref", "payload", "field", "index"):
+                return from_arg(t[2] if t[0] == "payload" else t[1], depth + 1)
+            if t[0] == "call":
+                last = str(t[1]).rsplit("::", 1)[-1]
+                if last in ("unwrap_or_default", "default", "new", "with_capacity", "from_bytes_until_nul"):
+                    return False
+                if last in ("unwrap_or", "or") and len(t[2]) == 2:
+                    return from_arg(t[2][0], depth + 1) and from_arg(t[2][1], depth + 1)
+                if last in ("to_vec", "to_owned", "into", "from", "clone", "index", "get", "split_at", "to_bytes", "map", "unwrap", "expect", "take",
+                            "collect", "copied", "cloned", "iter", "take_while", "into_iter", "split", "next", "position", "truncate"):
+                    return any(from_arg(a, depth + 1) for a in t[2]) and not any(
+                        y[0] == "call" and str(y[1]).rsplit("::", 1)[-1] in ("unwrap_or_default", "default", "from_bytes_until_nul") for a in t[2] for y in subterms(norm(a)))
+                return False
+            return False
+        good = bool(rets) and all(from_arg(r) for r in rets)
+        ctx.check(good, "R10", "fixed-text-field-is-its-octets-up-to-the-first-NUL", ctx.where(b),
+                  "null_terminated must return its argument (cut at the first NUL, or whole when there is none); it returns %s" % [show(r)[:90] for r in rets])
+    ctx.floor("R10", "NUL-terminated field helper", len(fns), 1)
